@@ -4,6 +4,7 @@ def b_TrafficLightCycle_create_node : CR.SrcW.Builder where
   kind := .node
   tag := "cycle"
   xsd := "trafficLightCycle"
+  path := []
   parent := ""
   attrs := []
   gattrs := []
@@ -21,7 +22,8 @@ def b_TrafficLightCycle_create_node_timeOffset : CR.SrcW.Builder where
   key := "TrafficLightCycleXMLNode.create_node/timeOffset"
   kind := .node
   tag := "timeOffset"
-  xsd := ""
+  xsd := "trafficLightCycle"
+  path := ["timeOffset"]
   parent := "TrafficLightCycleXMLNode.create_node"
   attrs := []
   gattrs := []
